@@ -213,6 +213,17 @@ def h_call_reuse(eng, target):
                   "second insertion does not pass the value computed for its context")
     else:
         eng.check(asm1 != asm2, "both insertions pass the same value")
+    # the text is a function of the arguments and the context only: asking the same patch object again (with enough
+    # arguments that several travel on the stack) gives the text a fresh patch object gives
+    consts = list(range(11, 23))
+    p = CallPatch(callee, consts)
+    first = p.get_asm(ctx1)
+    second = p.get_asm(ctx1)
+    third = p.get_asm(ctx2)
+    fresh = CallPatch(callee, list(consts)).get_asm(ctx1)
+    eng.check(first == fresh, "two CallPatch objects with the same arguments emit different code")
+    eng.check(second == fresh and third == fresh,
+              "a CallPatch emits different code when it is asked a second/third time (state kept in the patch object)")
 
 
 def h_call(eng, target, nargs, kinds, conv_kind, adj_kind):
